@@ -96,8 +96,16 @@ def nameEncodeWith (macOrder winOrder : List (Nat × String)) (info : List Entry
   let n := recs.length
   [0, 0] ++ (u16 n ++ (u16 (6 + 12 * n) ++ (recs.flatMap recBytes ++ r.1.data)))
 
+def insertLang (e : Nat × String) : List (Nat × String) → List (Nat × String)
+  | [] => [e]
+  | x :: rest => if e.1 ≤ x.1 then e :: x :: rest else x :: insertLang e rest
+
+/-- `sortedLanguageIDs` (repaired `Encode`): the language map in increasing order of the ids -/
+def sortLangs (tbl : List (Nat × String)) : List (Nat × String) := tbl.foldr insertLang []
+
+/-- `(*Info).Encode` after the repair: the language ids are visited in increasing order -/
 def nameEncode (info : List Entry) (winEid : Nat) : List Nat :=
-  nameEncodeWith Gen.appleBCP Gen.msBCP info winEid
+  nameEncodeWith (sortLangs Gen.appleBCP) (sortLangs Gen.msBCP) info winEid
 
 /-- Go map lookup `appleBCP[languageID]` ("" when absent) -/
 def langGet : List (Nat × String) → Nat → String
